@@ -36,6 +36,49 @@ type ogen struct {
 	ctxOut  string // rendering of '.' at the top level of the program
 	named   bool   // the program prints values of named types with print methods (outside the model)
 	ctxOK   bool   // '.' is still the program's data here (not inside a body that rebinds it)
+	jx      bool   // the program uses the tenth-round constructs (Go values outside the model are bound)
+}
+
+// tenth-round constructs: each is a fixed source with the output the property demands
+func (g *ogen) jxNode() onode {
+	r := g.r
+	v, ok := g.freshVar(), g.freshVar()
+	type gc struct{ src, out string }
+	cs := []gc{
+		// the two-value lookup says whether the key is PRESENT; a present key holding nil (typed or not) is present
+		{"{{if " + v + ", " + ok + " := mn[\"p\"]; " + ok + "}}P{{else}}DEAD{{end}}", "P"},
+		{"{{ " + v + ", " + ok + " := mn[\"i\"] }}{{" + ok + "}}", g.E("true")},
+		{"{{ " + v + ", " + ok + " := mn[\"m\"] }}{{" + ok + "}}", g.E("true")},
+		{"{{ " + v + ", " + ok + " := mn[\"s\"] }}{{" + ok + "}}", g.E("true")},
+		{"{{ " + v + ", " + ok + " := mn[\"zz\"] }}{{" + ok + "}}", g.E("false")},
+		{"{{ " + v + ", " + ok + " := mn[\"p\"] }}{{ " + ok + " = false }}{{ " + v + ", " + ok + " = mn[\"s\"] }}{{" + ok + "}}", g.E("true")},
+		// a piped value that is invalid (a missing map entry) is still the piped argument of a jet.Func
+		{"{{ m.missing | rec(\"a\") }}", g.escape("[<nil> a]")},
+		{"{{ m.missing | rec(\"a\", _) }}", g.escape("[a <nil>]")},
+		{"{{ m.missing | rec }}", g.escape("[<nil>]")},
+		{"{{ m.missing | isset(m.k) }}", g.E("false")},
+		{"{{ n | rec: 1 }}", g.escape("[<nil> 1]")},
+		// every entry of a map is ranged over with ITS value, also an entry whose key is not equal to itself
+		{"{{range k, v := nan1}}[{{v}}]{{end}}", "[" + g.escape("n<") + "]"},
+		{"{{range nan1}}[{{.}}]{{end}}", "[" + g.escape("n<") + "]"},
+		{"{{range k, v := nan1}}{{range v}}({{.}}){{end}}{{end}}{{range k, v := nan2}}{{range v}}({{.}}){{end}}{{end}}", "(" + g.E(1) + ")(" + g.E(2) + ")"},
+		// the same field chain through an interface-typed field holding values of different struct types
+		{"{{range pets}}{{.Pet.Name}};{{end}}", g.E("Tom") + ";" + g.E("Rex") + ";" + g.E("Kit") + ";"},
+		{"{{range pets}}{{.Pet.Name}}={{.Pet[\"Name\"]}};{{end}}", g.E("Tom") + "=" + g.E("Tom") + ";" + g.E("Rex") + "=" + g.E("Rex") + ";" + g.E("Kit") + "=" + g.E("Kit") + ";"},
+		{"{{range i, p := pets}}{{if i != 1}}{{p.Pet.Sound}}{{else}}{{p.Pet.Owner}}{{end}},{{end}}", g.E("m") + "," + g.E("Ann") + "," + g.E("p") + ","},
+		// an explicit context that evaluates to nil is the context: the callee sees no data
+		{"{{include \"/octx.jet\" nil}}", "none"}, {"{{include \"/octx.jet\" m[\"absent\"]}}", "none"}, {"{{include \"/octx.jet\" n}}", "none"},
+		{"{{ exec(\"/octxr.jet\", nil) }}", g.E("false")}, {"{{ exec(\"/octxr.jet\", m[\"absent\"]) }}", g.E("false")},
+		{"{{ includeIfExists(\"/octx.jet\", m[\"absent\"]) }}", "none"}, {"{{ includeIfExists(\"/octx.jet\", nil) }}", "none"},
+		{"{{include \"/octx.jet\" ia}}", "has"}, {"{{ exec(\"/octxr.jet\", ia) }}", g.E("true")},
+		// try is all-or-nothing whatever makes the body fail - also a Go runtime error inside a called method
+		{"{{try}}a{{ hold.Boom() }}b{{catch}}c{{end}}d", "cd"},
+		{"{{try}}a{{ hold.Boom().Arr }}b{{end}}d", "d"},
+		{"{{range li}}{{try}}a{{if " + v + " := hold.Boom(); " + v + "}}x{{end}}b{{catch " + ok + "}}c{{end}}{{.}}{{end}}", "c" + g.E(3) + "c" + g.E(0) + "c" + g.E(7)},
+		{"{{try}}{{try}}a{{ hold.Boom() }}{{catch}}{{ hold.Boom() }}{{end}}DEAD{{catch}}k{{end}}", "k"},
+	}
+	c := cs[r.Intn(len(cs))]
+	return onode{src: c.src, out: c.out, failOff: -1}
 }
 
 func htmlEsc(s string) string {
@@ -79,6 +122,9 @@ func (g *ogen) text() onode {
 // value print: the bytes must be the escaper applied once to the printed form
 func (g *ogen) print() onode {
 	r := g.r
+	if g.jx && r.Chance(40) {
+		return g.jxNode()
+	}
 	if r.Chance(6) {
 		// literals and actions that span lines: the lines after them keep their numbers
 		type gc struct{ src, val string }
@@ -715,6 +761,15 @@ func genOracleProgram(r *h.Rand, flavor string) (*prog, *sx.Sexp) {
 	if g.named {
 		vars.Add(bind("arr", gov("arr3"))).Add(bind("parr", gov("parr3"))).Add(bind("nf", gov("nilfunc"))).Add(bind("njf", gov("niljfunc"))).
 			Add(bind("mi", gov("ifacemap"))).Add(bind("sch", gov("sendch"))).Add(bind("rch", gov("recvch"))).Add(bind("hold", gov("holder")))
+	}
+	g.jx = r.Chance(30)
+	if g.jx {
+		if !g.named {
+			vars.Add(bind("hold", gov("holder")))
+		}
+		vars.Add(bind("nan1", gov("nanmap1"))).Add(bind("nan2", gov("nanmap2"))).Add(bind("pets", gov("pets"))).Add(bind("rec", vJFunc("rec")))
+		p.files["/octx.jet"] = "{{if .}}has{{else}}none{{end}}"
+		p.files["/octxr.jet"] = "{{return isset(.)}}"
 	}
 	vars.Add(bind("bu", vUint(9223372036854775808))).Add(bind("bv", vUint(18446744073709551615))).Add(bind("ub", vUint(1)))
 	// templates that exist but do not parse: including them is a failure, however it is spelled
